@@ -95,7 +95,7 @@ def run(tier, seed):
 
     # 3. direction B: generic transitions of the real code, validated by TLC in GF(p)
     nt, ln = (60, 40) if quick else (600, 80)
-    traces = gen_trackers.base_traces(rng, nt, ln)
+    traces = gen_trackers.base_traces(rng, nt, ln) + gen_trackers.base_traces(rng, 4 if quick else 40, 200 if quick else 600)
     fails, res = tracecheck.validate("Trace_Trackers", traces, lambda t: len(t["ev"]), tag="c10tr")
     ctx.add_tlc("trace validation Trace_Trackers (GF(p))", res, kind="trace_validation", traces=len(traces),
                 events=sum(len(t["ev"]) for t in traces))
